@@ -58,9 +58,12 @@ unsafe fn check_redirect(entry: u64, raw: *const ()) {
 
 macro_rules! stubs {
     ($(#[$m:meta])* fn $name:ident() $body:block) => {
+        stubs! { @unwind 72 $(#[$m])* fn $name() $body }
+    };
+    (@unwind $u:literal $(#[$m:meta])* fn $name:ident() $body:block) => {
         $(#[$m])*
         #[kani::proof]
-        #[kani::unwind(72)]
+        #[kani::unwind($u)]
         #[kani::stub(std::ptr::copy_nonoverlapping, shim_copy)]
         #[kani::stub(crate::injector_core::linuxapi::__clear_cache, shim_clear_cache)]
         #[kani::stub(<*mut u8>::add, shim_add)]
@@ -163,7 +166,7 @@ fn async_history_family() {
 }
 }
 
-stubs! {
+stubs! { @unwind 44
 /// the same async function faked twice through the checked API: the latest value is in effect,
 /// the original poll code is back after drop
 fn async_refake_same_function() {
